@@ -1,6 +1,7 @@
 package hist
 
 import (
+	"bytes"
 	"fmt"
 	"math/big"
 
@@ -38,6 +39,10 @@ type Gen struct {
 	Down      []int
 	DownFrom  int64
 	downDrawn bool
+
+	// NoBlockGasObserver: generated contracts do not read GASLIMIT (the chain feeds it the block's running gas total,
+	// the one thing a failed transaction may advance: C06's twin legitimately differs in it)
+	NoBlockGasObserver bool
 
 	// set by ProposalOptionsPair around its two ProposalCreate draws
 	forceCfg string
@@ -1277,6 +1282,8 @@ var (
 	rtFactory = ethcmn.FromHex("0x6000600060006000346000355af150" + "6000600160006000f550" + "00")
 	// runtime that writes its execution environment into storage, one slot each: GASLIMIT, NUMBER, TIMESTAMP, COINBASE,
 	// DIFFICULTY, GASPRICE, ORIGIN, GAS, BLOCKHASH(NUMBER-1) — whatever the node feeds the VM becomes part of the state
+	// the same without GASLIMIT (slot 0 receives NUMBER instead)
+	rtEnvNoGasLimit = ethcmn.FromHex("0x43600055" + "43600155" + "42600255" + "41600355" + "44600455" + "3a600555" + "32600655" + "5a600755" + "6001430340600855" + "00")
 	rtEnv = ethcmn.FromHex("0x45600055" + "43600155" + "42600255" + "41600355" + "44600455" + "3a600555" + "32600655" + "5a600755" + "6001430340600855" + "00")
 )
 
@@ -1331,6 +1338,9 @@ func (g *Gen) OLVM() txgen.Tx {
 		tags = append(tags, "olvm-transfer")
 	case 2: // create
 		rt := rapid.SampledFrom([][]byte{rtStore, rtRevert, rtLoop, rtKill, rtLog, rtFactory, rtEnv, rtEnv}).Draw(g.T, "rt")
+		if g.NoBlockGasObserver && bytes.Equal(rt, rtEnv) {
+			rt = rtEnvNoGasLimit
+		}
 		a.Data = initCode(rt)
 		if len(rt) == len(rtFactory) {
 			factoryNote = ":factory"
